@@ -1,26 +1,26 @@
 SPECIFICATION GSpec
 CONSTANTS
   Params = {"P1", "P2"}
-  Vals = {"v0", "v1", "v2"}
+  Vals = {"v0", "v1"}
   NChunks = 2
   AutoChoices = {{"P1"}}
-  HwChoices = {{"P2"}}
+  HwChoices = {{"P1", "P2"}}
   NoDefChoices = {{"P1"}}
-  CfgVals = {"v2"}
-  Faults = {"crash"}
-  Corruptions = {"missing", "notjson", "notdict", "extra", "bad", "drop"}
+  CfgVals = {"v1"}
+  Faults = {}
+  Corruptions = {"wipe"}
   Dev = {"BelieveEarly"}
   Depth = 12
-  MaxChanges = 2
-  MaxSaves = 0
+  MaxChanges = 1
+  MaxSaves = 1
   MaxFaults = 0
   MaxStarts = 2
-  MaxCorrupt = 2
-  MaxOther = 0
+  MaxCorrupt = 1
+  MaxOther = 1
   FirstCfgs = {0}
   StartCfgs = {0, 1}
   CfgKinds = {"value", "default"}
-  Vias = {"set"}
+  Vias = {"write", "read"}
 CONSTRAINT Bound
 INVARIANT Emit1
 CHECK_DEADLOCK FALSE
